@@ -21,6 +21,7 @@ from ..selftest import Twin
 from ._engine import CL, CL_REL, command_constructions, list_position, param
 
 EXPLANATION = __doc__.split("\n\n", 1)[1]
+TECHNIQUE = 'static analysis: same-path pairing (mutual CFG dominance) of state changes with StepStateChanged publications, command order, once-per-result path counting'
 TRUSTED = ["CPython ast"]
 
 
